@@ -340,6 +340,12 @@ add("C02", "fixed", "escape:AssertionError@extra/tags/extends_tag.py:_build_bloc
     "a macro whose body contains an extends tag, defined in an included template and called from the including one, hit a bare assert (sync and async)",
     [c02("{% include 'mac' %}{% call mm 1 %}"), c02("{% include 'mac' %}{% call mm 1 %}", **{"async": True}), c02("{% include 'mac' %}{% for i in (1..2) %}{% call mm i %}{% endfor %}", mode="lax")], "98a8fba")
 
+# ----------------------------------------------------------------------------- C10 fixed in round 4 (first reported by an independent sub-agent)
+add("C10", "fixed", "ws:plain:liquid", "an empty {% liquid %} tag swallowed the rest of the template as its block when a tag followed (whitespace-only text after it vanished) and was a syntax error when text or an output statement followed",
+    [{"segs": ["", {"k": "liquid", "f": [0, 0], "lit": "L", "var": "empty"}, "", {"k": "if", "f": [0, 0, 0, 0], "body": ""}, " "], "tc": False},
+     {"segs": ["a ", {"k": "liquid", "f": [0, 0], "lit": "L", "var": "empty"}, " b"], "tc": False},
+     {"segs": ["", {"k": "liquid", "f": [0, 0], "lit": " ", "var": "empty"}, "x", {"k": "out", "f": [0, 0], "lit": "L"}, ""], "tc": True}], "d8692f0")
+
 if __name__ == "__main__":
     # further entries are appended by tools/mkfindings.py from triaged replay files and kept in findings_extra.json
     extra_path = os.path.join(VERIF, "tools", "findings_extra.json")
